@@ -617,11 +617,18 @@ def LX(tier, scheds=('fwd', 'bwd')):
                 lv = [i for i in range(n) if is_leaf(par, i)]
                 exts = [None, 'pred', 'succ']
                 for combo in itertools.product(range(len(menu)), repeat=len(lv)):
-                    for rpat in (('A', 'AB') if len(lv) > 1 else ('A',)):
+                    # 'dN': the first leaf on a resource called 'default', the others without any resource (two different resources)
+                    for rpat in (('A', 'AB', 'dN') if len(lv) > 1 else ('A',)):
                         attrs = {i: dict(menu[c], resource='A' if rpat == 'A' else 'AB'[j % 2]) for j, (i, c) in enumerate(zip(lv, combo))}
+                        if rpat == 'dN':
+                            for j, i in enumerate(lv):
+                                if j == 0:
+                                    attrs[i]['resource'] = 'default'
+                                else:
+                                    del attrs[i]['resource']
                         dflts = (0, 4) if any('estimate' not in attrs[i] and 'milestone' not in attrs[i] for i in lv) else (0,)
                         for cal in ('none', 'wk58', 'sparse'):
-                            if S0 != MON and cal != 'none':
+                            if (S0 != MON or rpat == 'dN') and cal != 'none':
                                 continue
                             for clock in clocks:
                                 for bal in (True, False):
